@@ -140,9 +140,11 @@ class Presched(Harness):
             want = sorted((sorted(r["nodes"]) for r in ref))
             if got != want:
                 raise Violation("components-differ", f"{got} vs {want}")
-            ws = [c.weight() for c in pre.components]
+            ws = [len(c.nodes) for c in pre.components]
             if ws != sorted(ws, reverse=True):
-                raise Violation("components-not-heaviest-first", str(ws))
+                raise Violation("components-not-heaviest-first", f"task counts {ws}")
+            if [c.weight() for c in pre.components] != ws:
+                raise Violation("component-weight-is-not-its-task-count", f"{[c.weight() for c in pre.components]} vs {ws}")
             if {k: v for k, v in pre.edge_o.items() if v} != edge_o:
                 raise Violation("consumers-differ", f"{dict(pre.edge_o)} vs {edge_o}")
             if {k: v for k, v in pre.edge_i.items() if v} != {k: v for k, v in edge_i.items() if v}:
